@@ -387,7 +387,7 @@ class I2CInitiator(Elaboratable):
             with m.State("IDLE"):
                 m.d.sync += self.busy.eq(1)
                 with m.If(self.start):
-                    with m.If(bus.scl_i & bus.sda_i):
+                    with m.If(bus.scl_i & bus.sda_i & bus.sda_o):
                         m.next = "START-SDA-L"
                     with m.Elif(~bus.scl_i):
                         m.next = "START-SCL-H"
